@@ -248,6 +248,16 @@ StepAdvInc ==
   /\ viol' = viol \cup AdvIncChecks(Ev)
   /\ UNCHANGED <<log, hmap, hroot, hyps, reopened>>
 
+(* the real HTTP client was handed an arbitrary 200-OK body for a proof request by a hostile server *)
+StepAdvRaw ==
+  /\ Ev.a = "advraw"
+  /\ viol' = viol
+       \cup (IF Ev.res \in {"panic", "timeout"}
+             THEN {Tag("C12", Ev.res \o "@" \o (IF "site" \in DOMAIN Ev THEN Ev.site ELSE "?") \o " (client given the body " \o Ev.body \o " for a " \o Ev.endpoint \o " request)")}
+             ELSE {})
+       \cup (IF Ev.res = "acc" THEN {Tag("C02", "degenerate answer accepted by the client (" \o Ev.endpoint \o ", body " \o Ev.body \o ")")} ELSE {})
+  /\ UNCHANGED <<log, hmap, hroot, hyps, reopened>>
+
 (*------------------------------------------------------ other events -----*)
 StepReset ==
   /\ Ev.a = "reset"
@@ -269,7 +279,7 @@ StepInfo ==
 Next ==
   /\ l <= Len(Trace)
   /\ l' = l + 1
-  /\ (StepAdd \/ StepMember \/ StepIncr \/ StepAdv \/ StepAdvInc \/ StepReset \/ StepReopen \/ StepInfo)
+  /\ (StepAdd \/ StepMember \/ StepIncr \/ StepAdv \/ StepAdvInc \/ StepAdvRaw \/ StepReset \/ StepReopen \/ StepInfo)
 
 Spec == Init /\ [][Next]_vars
 
